@@ -140,7 +140,7 @@ Token& Lexer::setIdentifierTokenKind(Token& result) const {
     break;
 
   case 8:
-    if (memcmp("subninja", result.start, 7) == 0)
+    if (memcmp("subninja", result.start, 8) == 0)
       return setTokenKind(result, Token::Kind::KWSubninja);
     break;
   }
